@@ -22,10 +22,15 @@ impl IgnorePathSet {
     pub(crate) fn is_match(&self, file_name: &FileName) -> bool {
         match file_name {
             FileName::Stdin => false,
-            FileName::Real(p) => self
-                .ignore_set
-                .matched_path_or_any_parents(p, false)
-                .is_ignore(),
+            // The patterns are relative to the directory of the config file: they name nothing
+            // outside of it (and the matcher refuses such a path).
+            FileName::Real(p) => {
+                (p.is_relative() || p.starts_with(self.ignore_set.path()))
+                    && self
+                        .ignore_set
+                        .matched_path_or_any_parents(p, false)
+                        .is_ignore()
+            }
         }
     }
 }
